@@ -4,7 +4,7 @@
    Spec/GkdiLayout.v (field tables from MS-GKDI 2.2.1-2.2.4, NDR64 stubs of GetKey). *)
 From V Require Import Prelude.Base Prelude.PyInt Prelude.PySlice Prelude.PyStr.
 From V Require Import gen.K_gkdi Model.Types Model.KeyId Model.Gkdi Model.GkdiView Spec.GkdiLayout.
-From V Require Import Model.Crypto Proofs.GkdiLib Proofs.GkdiKeyId Proofs.GkdiEnvelope Proofs.GkdiGetKey Proofs.GkdiStructs Proofs.GkdiLayoutEq.
+From V Require Import Model.Crypto Proofs.GkdiLib Proofs.GkdiKeyId Proofs.GkdiEnvelope Proofs.GkdiGetKey Proofs.GkdiStructs Proofs.GkdiLayoutEq Proofs.GkdiLayoutIff Proofs.GkdiSafe.
 
 (* ---- round trips ---- *)
 Theorem C11_roundtrip_KeyIdentifier : forall k, wf_kid k = true ->
@@ -73,6 +73,49 @@ Theorem C11_layout_ECDHKey : forall k, wf_eck k = true ->
   exists b, ECDHKey_pack k = Ok b /\ layout ECDHKey_table (spec_of_eck k) = Some b.
 Proof. exact ECDHKey_layout. Qed.
 Print Assumptions C11_layout_ECDHKey.
+
+(* ---- the same for ALL field values, well-formed or not: the packer succeeds exactly when the independent
+   encoder does, with the same bytes (res_opt maps Ok b to Some b and an exception to None). The only side
+   condition is the typing invariant of uuid.UUID: a root key identifier is 16 bytes. ---- *)
+Theorem C11_layout_all_KeyIdentifier : forall k, len (kid_rkid k) = 16 ->
+  layout KeyIdentifier_table (spec_of_kid k) = res_opt (KeyIdentifier_pack k).
+Proof. exact KeyIdentifier_layout_iff. Qed.
+Print Assumptions C11_layout_all_KeyIdentifier.
+
+Theorem C11_layout_all_GroupKeyEnvelope : forall e, len (gke_rkid e) = 16 ->
+  layout GroupKeyEnvelope_table (spec_of_env e) = res_opt (GroupKeyEnvelope_pack e).
+Proof. exact GroupKeyEnvelope_layout_iff. Qed.
+Print Assumptions C11_layout_all_GroupKeyEnvelope.
+
+Theorem C11_layout_all_KDFParameters : forall name, layout KDFParameters_table name = res_opt (KDFParameters_pack name).
+Proof. exact KDFParameters_layout_iff. Qed.
+Print Assumptions C11_layout_all_KDFParameters.
+
+Theorem C11_layout_all_FFCDHParameters : forall p, layout FFCDHParameters_table (spec_of_ffp p) = res_opt (FFCDHParameters_pack p).
+Proof. exact FFCDHParameters_layout_iff. Qed.
+Print Assumptions C11_layout_all_FFCDHParameters.
+
+Theorem C11_layout_all_FFCDHKey : forall k, layout FFCDHKey_table (spec_of_ffk k) = res_opt (FFCDHKey_pack k).
+Proof. exact FFCDHKey_layout_iff. Qed.
+Print Assumptions C11_layout_all_FFCDHKey.
+
+Theorem C11_layout_all_ECDHKey : forall k, layout ECDHKey_table (spec_of_eck k) = res_opt (ECDHKey_pack k).
+Proof. exact ECDHKey_layout_iff. Qed.
+Print Assumptions C11_layout_all_ECDHKey.
+
+(* ---- the decoders on arbitrary bytes: a value or ValueError, nothing else (and they terminate: the
+   UTF-16 decoder never exhausts its fuel) ---- *)
+Theorem C11_unpack_total_KeyIdentifier : forall data, only_value_error (KeyIdentifier_unpack data).
+Proof. exact KeyIdentifier_unpack_safe. Qed.
+Print Assumptions C11_unpack_total_KeyIdentifier.
+
+Theorem C11_unpack_total_GroupKeyEnvelope : forall data, only_value_error (GroupKeyEnvelope_unpack data).
+Proof. exact GroupKeyEnvelope_unpack_safe. Qed.
+Print Assumptions C11_unpack_total_GroupKeyEnvelope.
+
+Theorem C11_unpack_total_response : forall stub trailer, only_value_error (process_get_key_result stub trailer).
+Proof. exact process_get_key_result_safe. Qed.
+Print Assumptions C11_unpack_total_response.
 
 (* ---- GetKey request stub = NDR64 encoding of the arguments, for every SD length (every
    residue mod 8) and a null / non-null root key pointer ---- *)
